@@ -3,6 +3,8 @@
 package vharn
 
 import (
+	"mime/multipart"
+	"net/http"
 	"net/url"
 
 	"github.com/johannesboyne/gofakes3"
@@ -178,4 +180,16 @@ func VersioningBody(status string) []byte {
 
 func MalformedXMLBody() []byte {
 	return vstub.RegisterXMLBody(&vstub.XMLBody{Malformed: true})
+}
+
+// FormReq builds a browser-form POST (symbolic flavour: the parsed form is
+// attached directly; mime/multipart parsing is outside the claims).
+func FormReq(path string, fields map[string]string, fileContent []byte) Req {
+	fh := &multipart.FileHeader{Filename: "upload.bin", Size: int64(len(fileContent))}
+	vstub.RegisterFormFile(fh, fileContent)
+	form := &multipart.Form{Value: map[string][]string{}, File: map[string][]*multipart.FileHeader{"file": {fh}}}
+	for k, v := range fields {
+		form.Value[k] = []string{v}
+	}
+	return Req{Method: "POST", Path: path, Header: http.Header{}, Form: form}
 }
